@@ -6,7 +6,8 @@
 id=$1; patch=$(readlink -f $2); tier=${3:-quick}; shift; shift; shift
 name=$(basename $(dirname $patch))
 wt=/tmp/seedrun/$name; mkdir -p /tmp/seedrun; rm -rf $wt; git -C /repo worktree prune
-git -C /repo worktree add --detach $wt HEAD >/dev/null 2>&1 || { echo "worktree failed"; exit 9; }
+ok=0; for try in 1 2 3 4 5; do git -C /repo worktree add --detach $wt HEAD >/dev/null 2>&1 && { ok=1; break; }; sleep $try; rm -rf $wt; git -C /repo worktree prune; done
+[ $ok = 1 ] || { echo "worktree failed"; exit 9; }
 cd $wt
 if ! git apply "$patch" 2>/dev/null; then
   patch -p1 -F3 -s < "$patch" || { echo "patch does not apply"; cd /; git -C /repo worktree remove --force $wt; exit 9; }
